@@ -14,7 +14,7 @@ ASSUMPTIONS = ["hashlib (OpenSSL) is the reference for the primitives; RIPEMD-16
 NSHARDS = {"quick": 16, "thorough": 32}
 BUDGET_S = {"quick": 200, "thorough": 1500}
 MIN_HITS = {
-    'quick': {"hash": 903, "hmac": 759, "pbkdf2": 221, "chunks": 6593, "mnemonic": 2, "reuse": 294},
+    'quick': {"hash": 903, "hmac": 759, "pbkdf2": 353, "chunks": 6593, "mnemonic": 2, "reuse": 294},
     'thorough': {"hash": 21603, "hmac": 19962, "pbkdf2": 787, "chunks": 322320, "mnemonic": 7},
 }
 FN = ["sha1", "sha256", "sha256d", "sha512", "ripemd160", "hash160"]
